@@ -27,3 +27,38 @@ Theorem iterator_closed_guards :
   end.
 Proof. split; vm_compute; exact I. Qed.
 
+
+(* the iterator's two goroutines, statement by statement (the transition system of Iter.v):
+   producer (iterate): waits for the first token on `next`; runs the visit, whose visitor sends the item on `items` and
+   waits for the next token (a closed `next` ends the visit); at the end closes `items` and drains `next`;
+   consumer (Next): a closed iterator answers false; otherwise sends a token, receives an item; a closed `items` or a
+   visit error closes `next`, marks the iterator closed and answers false; both channels are unbuffered *)
+Theorem iterator_functions :
+  body "Collection.iterate" =
+    [SDefer (GCall "func() {  close(it.items)   for range it.next {  } }" []);
+     SIf [SAssign [GVar "_"; GVar "ok"] ":=" [GUn "<-" (GVar "it.next")]] (GUn "!" (GVar "ok")) [SReturn []] [];
+     SAssign [GVar "it.err"] "=" [GCall "v" [GVar "t"; GFun "<lit:Collection.iterate#1>"]]] /\
+  body "<lit:Collection.iterate#1>" =
+    [SOther "it.items <- i";
+     SAssign [GVar "_"; GVar "ok"] ":=" [GUn "<-" (GVar "it.next")];
+     SReturn [GVar "ok"]] /\
+  body "iterator.Next" =
+    [SIf [] (GVar "it.closed") [SReturn [GVar "false"]] [];
+     SOther "it.next <- true";
+     SAssign [GVar "i"; GVar "ok"] ":=" [GUn "<-" (GVar "it.items")];
+     SIf [] (GBin "||" (GUn "!" (GVar "ok")) (GBin "!=" (GVar "it.err") GNil))
+       [SExpr (GCall "close" [GVar "it.next"]); SAssign [GVar "it.closed"] "=" [GVar "true"]; SReturn [GVar "false"]] [];
+     SAssign [GVar "it.result"] "=" [GVar "i"];
+     SReturn [GVar "true"]] /\
+  body "newIterator" =
+    [SAssign [GVar "it"] ":=" [GOther "iterator{}"];
+     SAssign [GVar "it.target"] "=" [GVar "target"];
+     SAssign [GVar "it.withValue"] "=" [GVar "withValue"];
+     SAssign [GVar "it.next"] "=" [GCall "make" [GOther "chan bool"]];
+     SAssign [GVar "it.items"] "=" [GCall "make" [GOther "chan *Item"]];
+     SReturn [GUn "&" (GVar "it")]] /\
+  body "Collection.IterateAscend" =
+    [SAssign [GVar "it"] ":=" [GCall "newIterator" [GVar "target"; GVar "withValue"]];
+     SGo (GCall "t.iteratorVisitorAscend" [GVar "it"]);
+     SReturn [GVar "it"]].
+Proof. repeat split; vm_compute; reflexivity. Qed.
